@@ -136,7 +136,7 @@ def is_sanitizer_report(st, rc, tail):
 
 def setup():
     ok_all = True
-    for b in ["mon", "rel", "tsan", "cli", "py"]:
+    for b in ["mon", "rel", "tsan", "asan", "cli", "py"]:
         ok, why = ensure(b)
         print("setup: build %s: %s" % (b, "ok" if ok else "FAILED\n" + why))
         ok_all = ok_all and ok
